@@ -167,6 +167,8 @@ class SInt:
     def __mul__(self, o):
         if _isinstance(o, float):
             return NotImplemented
+        if _isinstance(o, SInt):
+            return ENG.concretize(o.e) * self        # keep the arithmetic linear
         oe = _e(o)
         return NotImplemented if oe is NotImplemented else SInt(self.e * oe)
     __rmul__ = __mul__
@@ -177,27 +179,64 @@ class SInt:
     def __pos__(self):
         return self
 
+    # Operations without a linear encoding fall back to concretisation: the operands are enumerated by forking
+    # (bounded by the per-site cap, beyond which the path is marked inconclusive) - never an error.
+    def _conc2(self, o, fn):
+        a = ENG.concretize(self.e)
+        b = ENG.concretize(o.e) if _isinstance(o, SInt) else o
+        return fn(a, b)
+
     def __floordiv__(self, o):
-        if _isinstance(o, _int) and o > 0:
+        if _isinstance(o, _int) and not _isinstance(o, bool) and o > 0:
             return SInt(self.e / z3.IntVal(o))      # z3 int division == floor for a positive divisor
-        raise NotImplementedError('SInt // non-constant')
+        return self._conc2(o, lambda a, b: a // b)
+
+    def __rfloordiv__(self, o):
+        return self._conc2(o, lambda a, b: b // a)
 
     def __mod__(self, o):
-        if _isinstance(o, _int) and o > 0:
+        if _isinstance(o, _int) and not _isinstance(o, bool) and o > 0:
             return SInt(self.e % z3.IntVal(o))
-        raise NotImplementedError('SInt % non-constant')
+        return self._conc2(o, lambda a, b: a % b)
+
+    def __rmod__(self, o):
+        return self._conc2(o, lambda a, b: b % a)
 
     def __and__(self, o):
         if _pow2(o):
             return SInt(self.e % z3.IntVal(o + 1))
-        raise NotImplementedError('SInt & non-mask')
+        return self._conc2(o, lambda a, b: a & b)
     __rand__ = __and__
 
+    def __or__(self, o):
+        return self._conc2(o, lambda a, b: a | b)
+    __ror__ = __or__
+
+    def __xor__(self, o):
+        return self._conc2(o, lambda a, b: a ^ b)
+    __rxor__ = __xor__
+
     def __lshift__(self, o):
-        return SInt(self.e * z3.IntVal(2 ** _int(o)))
+        if _isinstance(o, _int):
+            return SInt(self.e * z3.IntVal(2 ** _int(o)))
+        return self._conc2(o, lambda a, b: a << b)
+
+    def __rlshift__(self, o):
+        return self._conc2(o, lambda a, b: b << a)
 
     def __rshift__(self, o):
-        return SInt(self.e / z3.IntVal(2 ** _int(o)))
+        if _isinstance(o, _int):
+            return SInt(self.e / z3.IntVal(2 ** _int(o)))
+        return self._conc2(o, lambda a, b: a >> b)
+
+    def __rrshift__(self, o):
+        return self._conc2(o, lambda a, b: b >> a)
+
+    def __pow__(self, o, mod=None):
+        return self._conc2(o, lambda a, b: pow(a, b, mod))
+
+    def __rpow__(self, o):
+        return self._conc2(o, lambda a, b: b ** a)
 
     def __truediv__(self, o):
         # only "milliseconds / 1000.0" style conversions are supported: result is fixed-point seconds
@@ -236,12 +275,14 @@ class SInt:
     def __format__(self, spec):
         if ENG.format_concretize:
             return format(self.__index__(), spec)
-        return '<sym>'
+        c = ENG.const_of(self.e)           # a value already pinned on this path renders as itself
+        return format(c, spec) if c is not None else '<sym>'
 
     def __str__(self):
         if ENG.format_concretize:
             return str(self.__index__())
-        return '<sym>'
+        c = ENG.const_of(self.e)
+        return str(c) if c is not None else '<sym>'
     __repr__ = __str__
 
     def to_bytes(self, length=1, byteorder='big', *, signed=False):
@@ -694,6 +735,14 @@ class SymStruct:
             raise HarnessError('struct format %r not modelled' % fmt)
         return [_FMT[c] for c in fmt[1:]]
 
+    @staticmethod
+    def _raw(fmt):
+        """'!Ns' / 'Ns' formats (N raw bytes): returns N or None"""
+        f = fmt[1:] if fmt[:1] in '!<>=@' else fmt
+        if f.endswith('s') and (f[:-1].isdigit() or f[:-1] == ''):
+            return _int(f[:-1] or '1')
+        return None
+
     @classmethod
     def _pack_list(cls, fmt, vals):
         sizes = cls._items(fmt)
@@ -758,6 +807,20 @@ class SymStruct:
 
     @classmethod
     def unpack_from(cls, fmt, buf, offset=0):
+        raw = cls._raw(fmt)
+        if raw is not None:
+            if not _isinstance(buf, SBytes) and not _isinstance(offset, SInt):
+                return _struct.unpack_from(fmt, buf, offset)
+            if not _isinstance(buf, SBytes):
+                buf = SBytes(list(_bytes(buf)))
+            ln = _len(buf)
+            if _isinstance(offset, SInt):
+                offset = ENG.concretize(offset.e)
+            if offset < 0:
+                offset += ln
+            if offset < 0 or offset + raw > ln:
+                raise _struct.error('unpack_from requires a buffer of at least %d bytes' % raw)
+            return (SBytes(buf.d[buf.a + offset:buf.a + offset + raw], kind='bytes').tobytes(),)
         n = sum(cls._items(fmt))
         if not _isinstance(buf, SBytes) and not _isinstance(offset, SInt):
             return _struct.unpack_from(fmt, buf, offset)
